@@ -1,7 +1,8 @@
 (* The definitions regenerated from pymoto/common/mma.py (GenC10.MMAGen) are the committed model
    (Model/MMAform.v), for ALL arguments and for every numeric instance (so in particular for R, which the theorems
    are about, and for Q, which is evaluated).  A semantic change of mmasub / residual / subsolv's initial point,
-   loop tests, step length or line search breaks one of these lemmas before any input is tried. *)
+   loop tests, step length or line search breaks one of these lemmas before any input is tried; renaming locals or
+   reordering independent statements does not change the generated terms. *)
 From Coq Require Import ZArith String List Bool.
 From Pymoto Require Import Base.Num Base.MMANum Model.MMAform.
 From GenC10 Require Import MMAGen.
@@ -10,7 +11,7 @@ Import ListNotations.
 Section Bridge.
   Context {K : Type} `{Num K} `{NumOrd K}.
 
-  (* ---- MMA.mmasub *)
+  (* ---- MMA.mmasub: state kept between calls *)
   Lemma gen_dx_init_eq xmin xmax : gen_dx_init xmin xmax = dx_c xmin xmax.
   Proof. reflexivity. Qed.
   Lemma gen_offset_init_eq a : gen_offset_init a = offset_init_c a.
@@ -18,45 +19,57 @@ Section Bridge.
   Lemma gen_offset_adapt_eq incr decr bound xval x1 x2 o :
     gen_offset_adapt incr decr bound xval x1 x2 o = offset_adapt_c incr decr bound xval x1 x2 o.
   Proof. reflexivity. Qed.
-  Lemma gen_shift_eq o dx : gen_shift o dx = shift_c o dx.
+  Lemma gen_low_eq xval o dx : gen_low xval o dx = low_c xval (shift_c o dx).
   Proof. reflexivity. Qed.
-  Lemma gen_low_eq xval sh : gen_low xval sh = low_c xval sh.
-  Proof. reflexivity. Qed.
-  Lemma gen_upp_eq xval sh : gen_upp xval sh = upp_c xval sh.
-  Proof. reflexivity. Qed.
-  Lemma gen_alfa_eq albefa move xval xmin dx sh low :
-    gen_alfa albefa move xval xmin dx sh low = alfa_c albefa move xval xmin dx sh low.
-  Proof. reflexivity. Qed.
-  Lemma gen_beta_eq albefa move xval xmax dx sh upp :
-    gen_beta albefa move xval xmax dx sh upp = beta_c albefa move xval xmax dx sh upp.
-  Proof. reflexivity. Qed.
-  Lemma gen_dg_plus_eq dg : gen_dg_plus dg = dg_plus_c dg.
-  Proof. reflexivity. Qed.
-  Lemma gen_dg_min_eq dg : gen_dg_min dg = dg_min_c dg.
-  Proof. reflexivity. Qed.
-  Lemma gen_dx2_eq sh : gen_dx2 sh = dx2_c sh.
-  Proof. reflexivity. Qed.
-  Lemma gen_P_1987_eq d2 dgp : gen_P_1987 d2 dgp = P87_c d2 dgp.
-  Proof. reflexivity. Qed.
-  Lemma gen_Q_1987_eq d2 dgm : gen_Q_1987 d2 dgm = Q87_c d2 dgm.
-  Proof. reflexivity. Qed.
-  Lemma gen_P_2007_eq dx d2 dgp dgm : gen_P_2007 dx d2 dgp dgm = P07_c dx d2 dgp dgm.
-  Proof. reflexivity. Qed.
-  Lemma gen_Q_2007_eq dx d2 dgp dgm : gen_Q_2007 dx d2 dgp dgm = Q07_c dx d2 dgp dgm.
-  Proof. reflexivity. Qed.
-  Lemma gen_rhs_row_eq sh P Q g : gen_rhs_row sh P Q g = rhs_row sh P Q g.
-  Proof. reflexivity. Qed.
-  Lemma gen_b_eq (rhs : list K) : gen_b rhs = b_of_rhs rhs.
+  Lemma gen_upp_eq xval o dx : gen_upp xval o dx = upp_c xval (shift_c o dx).
   Proof. reflexivity. Qed.
   Lemma gen_xold2_next_eq (x1 : K) : gen_xold2_next x1 = xold2_next x1.
   Proof. reflexivity. Qed.
   Lemma gen_xold1_next_eq (xv : K) : gen_xold1_next xv = xold1_next xv.
   Proof. reflexivity. Qed.
+
+  (* ---- MMA.mmasub: what is handed to subsolv *)
+  Lemma gen_arg_alfa_eq albefa move xval xmin o dx low :
+    gen_arg_alfa albefa move xval xmin o dx low = alfa_c albefa move xval xmin dx (shift_c o dx) low.
+  Proof. reflexivity. Qed.
+  Lemma gen_arg_beta_eq albefa move xval xmax o dx upp :
+    gen_arg_beta albefa move xval xmax o dx upp = beta_c albefa move xval xmax dx (shift_c o dx) upp.
+  Proof. reflexivity. Qed.
+  Lemma gen_arg_P_1987_eq o dx dg : gen_arg_P_1987 o dx dg = P87_c (dx2_c (shift_c o dx)) (dg_plus_c dg).
+  Proof. reflexivity. Qed.
+  Lemma gen_arg_Q_1987_eq o dx dg : gen_arg_Q_1987 o dx dg = Q87_c (dx2_c (shift_c o dx)) (dg_min_c dg).
+  Proof. reflexivity. Qed.
+  Lemma gen_arg_P_2007_eq o dx dg : gen_arg_P_2007 o dx dg = P07_c dx (dx2_c (shift_c o dx)) (dg_plus_c dg) (dg_min_c dg).
+  Proof. reflexivity. Qed.
+  Lemma gen_arg_Q_2007_eq o dx dg : gen_arg_Q_2007 o dx dg = Q07_c dx (dx2_c (shift_c o dx)) (dg_plus_c dg) (dg_min_c dg).
+  Proof. reflexivity. Qed.
+  (* composed with dx = xmax - xmin these are the functions the theorems are stated about *)
+  Lemma gen_composed_eq albefa move xval xmin xmax o dg :
+    let dx := gen_dx_init xmin xmax in
+    gen_low xval o dx = low_of xval xmin xmax o /\ gen_upp xval o dx = upp_of xval xmin xmax o /\
+    gen_arg_alfa albefa move xval xmin o dx (gen_low xval o dx) = alfa_of albefa move xval xmin xmax o /\
+    gen_arg_beta albefa move xval xmax o dx (gen_upp xval o dx) = beta_of albefa move xval xmin xmax o /\
+    gen_arg_P_1987 o dx dg = P_of V1987 xmin xmax o dg /\ gen_arg_Q_1987 o dx dg = Q_of V1987 xmin xmax o dg /\
+    gen_arg_P_2007 o dx dg = P_of V2007 xmin xmax o dg /\ gen_arg_Q_2007 o dx dg = Q_of V2007 xmin xmax o dg.
+  Proof. cbv zeta. repeat split; reflexivity. Qed.
+
+  (* right-hand side: np.dot(P, 1/shift) + np.dot(Q, 1/shift) - g, the matrices being the ones handed to subsolv *)
+  Lemma gen_rhs_ops_eq o dx dg :
+    gen_rhs_op1_1987 o dx dg = gen_arg_P_1987 o dx dg /\ gen_rhs_op3_1987 o dx dg = gen_arg_Q_1987 o dx dg /\
+    gen_rhs_op1_2007 o dx dg = gen_arg_P_2007 o dx dg /\ gen_rhs_op3_2007 o dx dg = gen_arg_Q_2007 o dx dg /\
+    gen_rhs_op2_1987 o dx = ndiv (nofZ 1) (shift_c o dx) /\ gen_rhs_op4_1987 o dx = ndiv (nofZ 1) (shift_c o dx) /\
+    gen_rhs_op2_2007 o dx = ndiv (nofZ 1) (shift_c o dx) /\ gen_rhs_op4_2007 o dx = ndiv (nofZ 1) (shift_c o dx).
+  Proof. repeat split; reflexivity. Qed.
+  Lemma gen_rhs_row_eq sh P Q g :
+    gen_rhs_row P (map (fun s => ndiv (nofZ 1) s) sh) Q (map (fun s => ndiv (nofZ 1) s) sh) g = rhs_row sh P Q g.
+  Proof. reflexivity. Qed.
+  Lemma gen_b_eq (rhs : list K) : gen_b rhs = b_of_rhs rhs.
+  Proof. reflexivity. Qed.
   Lemma gen_versions_eq : gen_versions = version_order.
   Proof. reflexivity. Qed.
   Lemma gen_subsolv_binding_eq : gen_subsolv_binding = subsolv_binding.
   Proof. reflexivity. Qed.
-  Lemma gen_returned_design_eq : gen_returned_design = returned_design.
+  Lemma gen_returned_index_eq : gen_returned_index = returned_index.
   Proof. reflexivity. Qed.
 
   (* ---- residual *)
@@ -68,18 +81,12 @@ Section Bridge.
   (* ---- subsolv: initial point *)
   Lemma gen_epsi0_eq : gen_epsi0 = epsi0.
   Proof. reflexivity. Qed.
-  Lemma gen_maxittt_eq : gen_maxittt = maxittt.
-  Proof. reflexivity. Qed.
-  Lemma gen_x_init_mid_eq alfa beta : gen_x_init_mid alfa beta = x_init_mid alfa beta.
-  Proof. reflexivity. Qed.
-  Lemma gen_x_init_x0_eq alfa beta x0 : gen_x_init_x0 alfa beta x0 = x_init_x0 alfa beta x0.
-  Proof. reflexivity. Qed.
-  Lemma gen_init_rest_eq (D : sdata K) x0 :
-    let st := init_state D x0 in let m := length (d_a D) in
-    sy st = gen_y_init m /\ sz st = gen_z_init /\ slam st = gen_lam_init m /\
+  Lemma gen_init_eq (D : sdata K) x0 :
+    let st := init_state D x0 in
+    sx st = match x0 with None => gen_x_init_mid (d_alfa D) (d_beta D) | Some v => gen_x_init_x0 (d_alfa D) (d_beta D) v end /\
+    sy st = gen_y_init (d_a D) /\ sz st = gen_z_init /\ slam st = gen_lam_init (d_a D) /\
     sxsi st = gen_xsi_init (d_alfa D) (sx st) /\ seta st = gen_eta_init (d_beta D) (sx st) /\
-    smu st = gen_mu_init (d_c D) /\ szet st = gen_zet_init /\ ss st = gen_s_init m /\
-    sx st = match x0 with None => gen_x_init_mid (d_alfa D) (d_beta D) | Some v => gen_x_init_x0 (d_alfa D) (d_beta D) v end.
+    smu st = gen_mu_init (d_c D) /\ szet st = gen_zet_init /\ ss st = gen_s_init (d_a D).
   Proof. cbv zeta. destruct x0; repeat split; reflexivity. Qed.
   Lemma gen_rows_eq (P : list (list K)) :
     gen_P0 P = P0_of P /\ gen_Q0 P = P0_of P /\ gen_P1 P = P1_of P /\ gen_Q1 P = P1_of P.
@@ -90,9 +97,9 @@ Section Bridge.
   Proof. reflexivity. Qed.
   Lemma gen_epsi_next_eq epsi : gen_epsi_next epsi = epsi_next epsi.
   Proof. reflexivity. Qed.
-  Lemma gen_residumax_eq r : gen_residumax r = residumax r.
+  Lemma gen_inner_test_eq epsi residu ittt : gen_inner_test epsi residu ittt = inner_test epsi (residumax residu) ittt maxittt.
   Proof. reflexivity. Qed.
-  Lemma gen_inner_test_eq epsi rmax ittt mx : gen_inner_test epsi rmax ittt mx = inner_test epsi rmax ittt mx.
+  Lemma gen_ls_fuel_eq : gen_ls_fuel = maxittt.
   Proof. reflexivity. Qed.
   Lemma gen_ls_accept_eq rn nn : gen_ls_accept rn nn = ls_accept rn nn.
   Proof. reflexivity. Qed.
@@ -101,10 +108,8 @@ Section Bridge.
 
   (* ---- subsolv: step length and line-search update *)
   Lemma gen_step_length_eq (D : sdata K) (st d : sstate K) :
-    gen_steg (gen_stmxx (gen_stmy (sy st) (sy d)) (gen_stmz (sz st) (sz d)) (gen_stmlam (slam st) (slam d))
-                        (gen_stmxsi (sxsi st) (sxsi d)) (gen_stmeta (seta st) (seta d)) (gen_stmmu (smu st) (smu d))
-                        (gen_stmzet (szet st) (szet d)) (gen_stms (ss st) (ss d)))
-             (gen_stmalfa (d_alfa D) (sx st) (sx d)) (gen_stmbeta (d_beta D) (sx st) (sx d))
+    gen_steg (d_alfa D) (d_beta D) (sx st) (sy st) (sz st) (slam st) (sxsi st) (seta st) (smu st) (szet st) (ss st)
+             (sx d) (sy d) (sz d) (slam d) (sxsi d) (seta d) (smu d) (szet d) (ss d)
     = step_length D st d.
   Proof. reflexivity. Qed.
   Lemma gen_advance_eq (st d : sstate K) steg :
